@@ -21,6 +21,15 @@ Drivers
                 protocols, immutability
   result        C10's random call sequences on IteratorResult / ChunkedIteratorResult of
                 both flavours (BaseResultInternal getters), observations compared call by call
+  subclasses    the in-library PYTHON SUBCLASSES of the dual classes, found by walking
+                __subclasses__() at run time (ColumnSet over OrderedSet; Row / RowMapping over
+                BaseRow; the Result family over BaseResultInternal; anything that appears later):
+                every public + inherited operation (copy, set algebra methods and operators,
+                in-place forms, element ops; attribute / key / index access, hasattr, attrgetter,
+                mapping protocol, pickling; Result views) with the *type* of each result, hash(),
+                ==, and marker attributes recorded - transcript compared between this (compiled)
+                process and a ``purepy`` subprocess, one mechanism per (class, operation);
+                RowMapping is also compared in-process on the two Row families
   whole-library a deterministic Core + SQLite transcript (compile, params, typed rows, row
                 lookup, truncated names) produced in this process (compiled) and in a
                 ``purepy`` subprocess must be identical
@@ -66,7 +75,7 @@ META = {
     "exhaustive": {"quick": False, "thorough": False},
     "require": ["compiled_modules", "pure_modules", "cmp_collections", "cmp_immutabledict", "cmp_processors",
                 "cmp_engine_util", "cmp_sql_util", "cmp_row", "cmp_result", "wholelib_lines_compared",
-                "exceptions_compared"],
+                "exceptions_compared", "subclass_ops_compared", "cmp_rowmapping"],
     "assumptions": ["the .c files beside the .so are the sources the .so was built from (sanitizer run)"],
 }
 
@@ -451,6 +460,32 @@ def drv_row(ctx, D, ps, rng, scale):
                 warnings.simplefilter("ignore")
                 oc, op_ = call(f, rc), call(f, rp)
             D.pair("row", what, {"row": desc, "arg": repr(arg)}, oc[:2], op_[:2])
+        # RowMapping (a Python subclass of BaseRow, from Row._mapping): attribute-, key- and
+        # mapping-protocol access must not depend on the flavour of the base class
+        import operator as _op
+
+        mc, mp = rc._mapping, rp._mapping
+        mprobes = []
+        for k in keys + ["zz", "_data", "items", "get", "", "__len__"]:
+            mprobes.append(("getattr", k, lambda m, k=k: (lambda v: v if not callable(v) else "<callable>")(getattr(m, k))))
+            mprobes.append(("getattr-default", k, lambda m, k=k: (lambda v: v if not callable(v) else "<callable>")(getattr(m, k, "DFLT"))))
+            mprobes.append(("hasattr", k, lambda m, k=k: hasattr(m, k)))
+            if k:
+                mprobes.append(("attrgetter", k, lambda m, k=k: (lambda v: v if not callable(v) else "<callable>")(_op.attrgetter(k)(m))))
+            mprobes.append(("getitem", k, lambda m, k=k: m[k]))
+            mprobes.append(("contains", k, lambda m, k=k: k in m))
+            mprobes.append(("get", k, lambda m, k=k: m.get(k, "DFLT")))
+            mprobes.append(("setattr", k, lambda m, k=k: setattr(m, k, 1)))
+        mprobes += [("len", None, len), ("iter", None, list), ("dict", None, dict), ("keys", None, lambda m: list(m.keys())),
+                    ("values", None, lambda m: list(m.values())), ("items", None, lambda m: list(m.items())),
+                    ("eq-dict", None, lambda m: m == dict(m)), ("type", None, lambda m: type(m).__name__),
+                    ("getitem-int", None, lambda m: m[0]), ("hash", None, lambda m: isinstance(hash(m), int)),
+                    ("pickle", None, lambda m: dict(pickle.loads(pickle.dumps(m, 5)))), ("repr", None, repr)]
+        for what, arg, f in mprobes:
+            with warnings.catch_warnings():
+                warnings.simplefilter("ignore")
+                oc, op_ = call(f, mc), call(f, mp)
+            D.pair("rowmapping", what, {"row": desc, "arg": repr(arg)}, oc[:2], op_[:2])
 
 
 def drv_result(ctx, D, ps, rng, scale):
@@ -521,9 +556,11 @@ def wholelib(ctx, n):
     from vf.gen.wholelib_gf import transcript
 
     seed = ctx.seed * 1000 + ctx.shard
+    from vf.gen.subclassdiff_gf import transcript as sub_transcript
+
     with warnings.catch_warnings():
         warnings.simplefilter("ignore")
-        here = transcript(seed, n)
+        here = transcript(seed, n) + sub_transcript(seed)
     env = dict(os.environ)
     env["PYTHONPATH"] = os.path.dirname(os.path.dirname(os.path.dirname(os.path.abspath(__file__)))) + os.pathsep + env.get("PYTHONPATH", "")
     out = os.path.join(ctx.workdir, "wholelib.json")
@@ -537,11 +574,25 @@ def wholelib(ctx, n):
     if there["has_cyextension"]:
         raise RuntimeError("purepy subprocess imported the compiled extensions")
     other = there["lines"]
+    reported = set()
     for i in range(max(len(here), len(other))):
         a = here[i] if i < len(here) else "<missing>"
         b = other[i] if i < len(other) else "<missing>"
         ctx.count("wholelib_lines_compared")
+        sub = a.startswith("SUB:") and b.startswith("SUB:")
+        if sub:
+            ctx.count("subclass_ops_compared")
         if a != b:
+            if sub and a.split(" ", 1)[0] == b.split(" ", 1)[0]:
+                # SUB:<Class>.<operation> lines are independent of each other: one mechanism per
+                # (class, operation), keep going
+                kind = a.split(" ", 1)[0][4:]
+                mech = f"subclass-{kind}-differs-between-builds"
+                if mech not in reported and len(reported) < 25:
+                    reported.add(mech)
+                    ctx.violation(mech, f"{a[:400]!r} (compiled) vs {b[:400]!r} (pure python)",
+                                  {"seed": seed, "line": i, "compiled": a[:3000], "pure": b[:3000]})
+                continue
             kind = a.split(" ", 1)[0].lower() if a != "<missing>" else "length"
             ctx.violation(f"wholelib-transcript-{kind}-differs",
                           f"line {i}: compiled {a[:300]!r} vs pure python {b[:300]!r}",
@@ -657,9 +708,10 @@ def _main(argv):
     if role == "wholelib":
         modes.activate("purepy")
         warnings.simplefilter("ignore")
+        from vf.gen.subclassdiff_gf import transcript as sub_transcript
         from vf.gen.wholelib_gf import transcript
 
-        lines = transcript(int(argv[1]), int(argv[2]))
+        lines = transcript(int(argv[1]), int(argv[2])) + sub_transcript(int(argv[1]))
         info = modes.verify_active()
         with open(argv[3], "w") as f:
             json.dump({"lines": lines, "has_cyextension": info["has_cyextension"]}, f)
